@@ -315,8 +315,16 @@ impl CodeFormatter {
                                 .fmt(else_.as_ref().unwrap());
                         }
                         BracePosition::NewLine => {
-                            self.push("\n")
-                                .fmt(tag_else.as_ref())
+                            // `else` starts a line of its own; when it already does, its trivia carries the line break
+                            let starts_on_new_line = tag_else
+                                .trivia
+                                .as_ref()
+                                .map(|t| t.data.contains(&Trivia::NewLine))
+                                .unwrap_or(false);
+                            if !starts_on_new_line {
+                                self.push("\n");
+                            }
+                            self.fmt(tag_else.as_ref())
                                 .fmt(else_.as_ref().unwrap());
                         }
                     }
